@@ -151,7 +151,8 @@ def audit(prop_id: str, module: str, theorems):
         f.write("import %s\n" % module)
         for t in theorems:
             f.write("#print axioms %s\n" % t)
-    rc, out = _run(["lake", "env", "lean", path], cwd=LEAN, timeout=1200)
+    with BuildLock():  # a build of another check must not replace the .olean files under the audit
+        rc, out = _run(["lake", "env", "lean", path], cwd=LEAN, timeout=1200)
     res = {t: None for t in theorems}
     flat = re.sub(r"\s+", " ", out)
     for m in _AX_RE.finditer(flat):
@@ -458,6 +459,9 @@ class Report:
         os.makedirs(EVIDENCE, exist_ok=True)
         # development runs without the proof build/audit do not overwrite the evidence
         name = "%s.json" % self.prop_id if proof is not None else ".nobuild-%s.json" % self.prop_id
+        if os.path.realpath(REPO) != "/repo":
+            # a run against a scratch tree (tools/try_seeded.sh): never the committed evidence
+            name = ".altrepo-%s.json" % self.prop_id
         with open(os.path.join(EVIDENCE, name), "w") as fh:
             json.dump(ev, fh, indent=1, default=repr, sort_keys=True)
         return 1 if self.violations else 0
